@@ -146,6 +146,14 @@ func (pq *KeyGroupPriorityQueue) Pop() ([]byte, bool) {
 
 func (pq *KeyGroupPriorityQueue) Push(data []byte) {
 	pq.loadFromDB()
+
+	// While some timers exist only in the DB the cache must stay a prefix of the
+	// sorted DB content: a value beyond the cached range goes to the DB alone,
+	// otherwise it would be served before earlier timers that are not cached.
+	if max, ok := pq.cache.PeekLast(); ok && !pq.allDataInCache && bytes.Compare(data, max) > 0 {
+		pq.db.Put(data, nil)
+		return
+	}
 	pq.cache.Push(data)
 
 	// If pushing the item exceeded the cache capacity, evict items until we're back under the limit
